@@ -710,14 +710,24 @@ def r3_refusal_paths(ctx):
         and any(isinstance(s, ast.Return) and A.const(s.value) is False for s in trys[0].handlers[0].body)
     yield Ob('x12n_document:x12n_document a malformed ISA at construction becomes `return False`', ok, ctx.floc(fn), '' if ok else 'refusal conversion changed')
     # the acknowledgement visitors are fenced: their exceptions do not escape (documented behaviour of the entry point)
-    vis = [s for s in ast.walk(fn) if isinstance(s, ast.Try) and any(A.call_target(c)[1] in ('error_997_visitor', 'error_999_visitor') for c in A.calls_in(s))]
-    ok = len(vis) == 2 and all(any((path_of(h.type) or '') == 'Exception' for h in t.handlers) for t in vis)
-    yield Ob('x12n_document:x12n_document acknowledgement generation is fenced by `except Exception`', ok, ctx.floc(fn), '' if ok else '%d fenced visitor blocks' % len(vis))
+    accepts = [c for c in A.calls_in(fn) if A.call_target(c)[1] == 'accept' or A.call_target(c)[1] in ('error_997_visitor', 'error_999_visitor')]
+    unfenced = [c for c in accepts if '*' not in _caught(fn, c)]
+    ok = len(accepts) >= 3 and not unfenced
+    yield Ob('x12n_document:x12n_document acknowledgement generation is fenced by `except Exception`', ok, ctx.floc(fn, unfenced[0] if unfenced else fn),
+             '' if ok else ('%d visitor runs found' % len(accepts) if not unfenced else 'a visitor run is not inside `except Exception`: a failure while writing the acknowledgement aborts validation'))
     cb = [s for s in ast.walk(fn) if isinstance(s, ast.Try) and any(A.call_target(c) == (None, 'callback') for c in A.calls_in(s))]
     ok = len(cb) == 1 and any(h.type is None or (path_of(h.type) or '') == 'Exception' for h in cb[0].handlers)
     yield Ob('x12n_document:x12n_document the caller\'s callback is fenced', ok, ctx.floc(fn), '' if ok else 'callback fence changed')
     # node None fallback
-    ok = any(isinstance(s, ast.If) and norm(s.test) == 'node is None' and any(norm(x) == 'node = orig_node' for x in s.body) for s in ast.walk(fn))
+    ok = False
+    for n in ast.walk(fn):
+        if isinstance(n, ast.Assign) and norm(n) == 'node = orig_node':
+            for t, pol in A.path_condition(n, fn):
+                try:
+                    if bool(A.ev(t, {'node': None})) == pol and bool(A.ev(t, {'node': 1})) != pol:
+                        ok = True
+                except (A.NotClosed, TypeError):
+                    pass
     yield Ob('x12n_document:x12n_document segment not found falls back to the previous node', ok, ctx.floc(fn), '' if ok else 'fallback changed')
 
 
